@@ -16,6 +16,8 @@ import PnVerif.Model.HeaderText
                                             crash | invalid | <numHeadDIFF>,<numVarDIFF>
                                 ncmpidiff = Tools.toolDiff ncmpidiffCfg on the library reader's parse (Header.decodeWhole)
                                 leq       = Tools.logicalEqB on the library reader's parse (1/0, - if a file is invalid)
+    DK <chunk> <hexA> <hexB> -> DK <cdfdiff>   the cdfdiff model with the variable contents compared by the chunk loop
+                                (Tools.cdfdiffRecordSame with READ_CHUNK_SIZE = <chunk>) instead of whole ranges
     P <nprocs> <len>*      -> P {<start>,<count>}* | ... (one group per rank: Tools.rankBox, the part of a variable of that
                                 shape a rank of ncmpidiff compares)
     O <hexfile>            -> O <xsz> <extent> {<begin> <end>}* R <recsize> <numrecs> {; f | {<start>,<end>}*}*
@@ -57,6 +59,22 @@ def specLevel (f : Bytes) : Nat :=
       | none => false
     if d.refsOk && chainOk then 2 else 1
 
+/-- the content part of cdfdiff (Tools.varDataDiff) with every record compared by the chunk loop -/
+def chunkedVarDiff (chunk : Nat) (cfg : DiffCfg) (ha hb : Hdr) (rsa rsb : Nat) (fa fb : Bytes) (a b : LFile) : Nat :=
+  sumNat ((ha.vars.zip a.vars).map (fun (_, lv0) =>
+    match (ha.vars.zip a.vars).find? (fun p => p.2.name == lv0.name), (hb.vars.zip b.vars).find? (fun p => p.2.name == lv0.name) with
+    | some (v, lv), some (w, lw) =>
+      if lv.xtype ≠ lw.xtype then 0
+      else if lv.dims.length ≠ lw.dims.length then 0
+      else if (lv.dims.map (fun d => dimLen cfg a.numrecs d.size)) ≠ (lw.dims.map (fun d => dimLen cfg b.numrecs d.size)) then 0
+      else if cfg.cmpNumrecs ∧ lv.isRec = true ∧ a.numrecs ≠ b.numrecs then 0
+      else
+        let n := varBytes v.xtype.size (lv.dims.map (·.size))
+        let nrec := if lv.isRec then a.numrecs else 1
+        b2n (!(List.range nrec).all (fun r =>
+          cdfdiffRecordSame chunk fa fb (v.begin + (if lv.isRec then rsa else 0) * r) (w.begin + (if lw.isRec then rsb else 0) * r) n))
+    | _, _ => 0))
+
 def step (cfg : Cfg) (line : String) : String :=
   match tokens line.trimAscii.toString with
   | ["V", hx] =>
@@ -74,6 +92,18 @@ def step (cfg : Cfg) (line : String) : String :=
         | _, _ => ("invalid", "-")
       s!"D {c} {m} {l}"
     | _, _ => "bad-hex"
+  | ["DK", ck, ha, hb] =>
+    match ck.toNat?, ofHex ha, ofHex hb with
+    | some chunk, some fa, some fb =>
+      match vGetNC cfg.v fa, vGetNC cfg.v fb with
+      | .ok (h1, i1, _), .ok (h2, i2, _) =>
+        let a := absFile h1 i1.recsize fa
+        let b := absFile h2 i2.recsize fb
+        match toolDiff cfg.cdf a b with
+        | .crash => "DK crash"
+        | .counts hd _ => s!"DK {hd},{(varsDiff cfg.cdf a b).2 + chunkedVarDiff chunk cfg.cdf h1 h2 i1.recsize i2.recsize fa fb a b}"
+      | _, _ => "DK invalid"
+    | _, _, _ => "bad-hex"
   | "P" :: np :: dims =>
     match np.toNat?, dims.mapM (·.toNat?) with
     | some n, some shape =>
